@@ -3,6 +3,7 @@ import collections
 from . import common, cv_checks
 
 KF_FS = 'label-omits-required-records'
+KF_NESTED = cv_checks.KF_NESTED
 
 
 def judge(ctx, res, stream):
@@ -21,8 +22,9 @@ def judge(ctx, res, stream):
         for part in r['set_line'].split('\t')[9].split(';'):
             f = part.split(':')
             if len(f) == 6:
-                idnames[int(f[5])] = (int(f[0]), int(f[1]), f[2], f[3])
-        for (_line, seq, entry, problem) in r['witness_no'][:3]:
+                for one in f[5].split('+'):
+                    idnames.setdefault(int(one), (int(f[0]), int(f[1]), f[2], f[3]))
+        for (_line, seq, entry, problem, *_rest) in r['witness_no'][:3]:
             comp = r.get('witness_completion', {}).get(entry)
             key = None
             how = ''
@@ -30,6 +32,14 @@ def judge(ctx, res, stream):
                 extra = [idnames.get(int(x)) for x in comp[6:].split(',')]
                 how = f' (it becomes one when the records {extra} are added)'
                 key = KF_FS
+                if r.get('omitted_inside', {}).get(entry) == 'inside':
+                    # the omitted record changes the peptide itself: not the known class (records
+                    # UPSTREAM of the peptide that only let translation reach it)
+                    how += '; an omitted record lies INSIDE the stretch that encodes the peptide'
+                    key = None
+            if not problem and cv_checks.has_nested(r):
+                # label bookkeeping inside a splicing insertion that carries records of its own
+                key = KF_NESTED
             what = (f'header entry {entry} of peptide {seq}: {problem}' if problem else
                     f'header entry {entry} is not a witness: applying exactly its variants to the '
                     f'transcript does not yield {seq} as a digestion product{how}')
@@ -58,7 +68,16 @@ def run(ctx: common.Ctx):
            if cv_checks.has_lookahead(e) and not cv_checks.wide_lookahead(e)]
     res = cv_checks.explore(ctx, ctx.n(100, 2000), dict(base, exception=None, enzymes=enz))
     judge(ctx, res, 'lookahead-enzymes')
-    ctx.coverage['worker_stats'] = {'trypsin-noexc': s1, 'lookahead-enzymes': ctx.coverage['worker_stats']}
+    s2 = dict(ctx.coverage['worker_stats'])
+    res = cv_checks.explore(ctx, ctx.n(320, 6000),
+                            dict(base, exception=None, per_tx=(2, 5), special=['sec', 'sec', 'start', 'stop', 'junction'], sec_near_start=0.6, coding_only=True))
+    judge(ctx, res, 'special-codons')
+    s3 = dict(ctx.coverage['worker_stats'])
+    res = cv_checks.explore(ctx, ctx.n(70, 1500),
+                            dict(base, exception=None, per_tx=(1, 4), as_frac=1.0, nested_frac=1.0))
+    judge(ctx, res, 'nested-in-splicing')
+    ctx.coverage['worker_stats'] = {'trypsin-noexc': s1, 'lookahead-enzymes': s2, 'special-codons': s3,
+                                    'nested-in-splicing': ctx.coverage['worker_stats']}
     ctx.assumptions += [
         'PARTIAL: label bookkeeping of the traversal is not modelled; each emitted label is validated '
         'by the Lean witness predicate',
